@@ -108,76 +108,145 @@ theorem topic_group_disjoint {e : Int} (h : clientTopicResetErrnos.contains e = 
     Bool.or_eq_true, beq_iff_eq] at h ⊢
   rw [Bool.eq_false_iff]; simp only [ne_eq, Bool.or_eq_true, beq_iff_eq]; omega
 
-/-- what one pass of `_handle_responses` leaves behind: `examined` = the responses it looked at -/
+/-- one response's clause of `invalidateOk` survives later resets -/
+theorem invalidateOk_cons {c : Cache} {g : String} {r : String × Int} {rs : List (String × Int)}
+    (h1 : (!clientTopicResetErrnos.contains r.2 || topicInvalid c r.1) = true)
+    (h2 : (!clientGroupResetErrnos.contains r.2 || !hasKey g c.groups) = true)
+    (h : invalidateOk c (some g) rs = true) : invalidateOk c (some g) (r :: rs) = true := by
+  simp only [invalidateOk, List.all_cons, Bool.and_eq_true] at h ⊢
+  exact ⟨⟨h1, h2⟩, h⟩
+
+/-- the rest of a pass after the first error (55f24eb): every remaining response is examined, and something is raised -/
+theorem examineRest_spec (g : String) (first : Raised) :
+    ∀ (rs : List (String × Int)) (c : Cache), CWf c →
+    (∀ t, topicInvalid c t = true → topicInvalid (examineRest (some g) first c rs).1 t = true) ∧
+    (hasKey g c.groups = false → hasKey g (examineRest (some g) first c rs).1.groups = false) ∧
+    CWf (examineRest (some g) first c rs).1 ∧
+    invalidateOk (examineRest (some g) first c rs).1 (some g) rs = true ∧
+    (examineRest (some g) first c rs).2 ≠ none := by
+  intro rs
+  induction rs with
+  | nil => intro c h; exact ⟨fun _ h => h, fun h => h, h, by simp [invalidateOk], by simp [examineRest]⟩
+  | cons r rs ih =>
+    intro c h
+    obtain ⟨topic, err⟩ := r
+    simp only [examineRest, clientHandleCatchAll, Bool.not_true, Bool.false_eq_true, if_false]
+    split
+    · rename_i h0
+      obtain ⟨i1, i2, i3, hok, hr⟩ := ih c h
+      have he : err = 0 := by simpa using h0
+      refine ⟨i1, i2, i3, invalidateOk_cons ?_ ?_ hok, hr⟩ <;> (subst he; simp [clientTopicResetErrnos, clientGroupResetErrnos])
+    · split
+      · rename_i h0 ht
+        obtain ⟨i1, i2, i3, hok, hr⟩ := ih (resetTopic c topic) (resetTopic_wf h topic)
+        refine ⟨fun t hi => i1 t (resetTopic_keeps_invalid t topic hi), fun hg => i2 (by simpa [resetTopic] using hg), i3,
+          invalidateOk_cons ?_ ?_ hok, hr⟩
+        · simp only [Bool.or_eq_true]; exact Or.inr (i1 topic (resetTopic_invalid h topic))
+        · simp only [Bool.or_eq_true]; exact Or.inl (by have := topic_group_disjoint ht; simpa using this)
+      · split
+        · rename_i h0 ht hgr
+          have hnt : (!clientTopicResetErrnos.contains err) = true := by simpa using ht
+          obtain ⟨i1, i2, i3, hok, hr⟩ := ih (resetGroup c g) (resetGroup_wf h g)
+          refine ⟨fun t hi => i1 t (resetGroup_keeps_invalid t g hi), fun _ => i2 (resetGroup_gone c g), i3,
+            invalidateOk_cons ?_ ?_ hok, hr⟩
+          · simp only [Bool.or_eq_true]; exact Or.inl hnt
+          · simp only [Bool.or_eq_true]; exact Or.inr (by simp [i2 (resetGroup_gone c g)])
+        · rename_i h0 ht hgr
+          have hnt : (!clientTopicResetErrnos.contains err) = true := by simpa using ht
+          have hng : (!clientGroupResetErrnos.contains err) = true := by simpa using hgr
+          obtain ⟨i1, i2, i3, hok, hr⟩ := ih c h
+          refine ⟨i1, i2, i3, invalidateOk_cons ?_ ?_ hok, hr⟩
+          · simp only [Bool.or_eq_true]; exact Or.inl hnt
+          · simp only [Bool.or_eq_true]; exact Or.inl hng
+
+/-- what one pass of `_handle_responses` leaves behind: EVERY response was examined (also the ones behind
+    the first error raised with `fail_on_error=True`: fix 55f24eb, read from the source) -/
 theorem handleResponses_spec (foe : Bool) (g : String) :
     ∀ (rs : List (String × Int)) (c : Cache), CWf c →
     (∀ t, topicInvalid c t = true → topicInvalid (handleResponses c foe (some g) rs).1 t = true) ∧
     (hasKey g c.groups = false → hasKey g (handleResponses c foe (some g) rs).1.groups = false) ∧
     CWf (handleResponses c foe (some g) rs).1 ∧
-    ∃ examined, examined <+: rs ∧ invalidateOk (handleResponses c foe (some g) rs).1 (some g) examined = true ∧
-      ((handleResponses c foe (some g) rs).2 = none → examined = rs) := by
+    invalidateOk (handleResponses c foe (some g) rs).1 (some g) rs = true := by
   intro rs
   induction rs with
-  | nil => intro c h; exact ⟨fun _ h => h, fun h => h, h, [], List.prefix_refl _, by simp [invalidateOk], fun _ => rfl⟩
+  | nil => intro c h; exact ⟨fun _ h => h, fun h => h, h, by simp [invalidateOk]⟩
   | cons r rs ih =>
     intro c h
     obtain ⟨topic, err⟩ := r
-    simp only [handleResponses]
+    simp only [handleResponses, afterFirst, clientHandleExaminesAll, clientHandleCatchAll, if_true, Bool.not_true, Bool.or_false]
     split
-    · -- err == 0
-      rename_i h0
-      obtain ⟨i1, i2, i3, ex, hpre, hok, hall⟩ := ih c h
-      refine ⟨i1, i2, i3, (topic, err) :: ex, List.cons_prefix_cons.mpr ⟨rfl, hpre⟩, ?_, fun hn => by rw [hall hn]⟩
+    · rename_i h0
+      obtain ⟨i1, i2, i3, hok⟩ := ih c h
       have he : err = 0 := by simpa using h0
-      simp only [invalidateOk, List.all_cons, Bool.and_eq_true] at hok ⊢
-      refine ⟨⟨?_, ?_⟩, hok⟩ <;> (subst he; simp [clientTopicResetErrnos, clientGroupResetErrnos])
+      refine ⟨i1, i2, i3, invalidateOk_cons ?_ ?_ hok⟩ <;> (subst he; simp [clientTopicResetErrnos, clientGroupResetErrnos])
     · split
-      · -- topic reset
-        rename_i h0 ht
+      · rename_i h0 ht
+        have hw := resetTopic_wf h topic
+        have key : ∀ (res : Cache × Option Raised),
+            (∀ t, topicInvalid (resetTopic c topic) t = true → topicInvalid res.1 t = true) →
+            (hasKey g (resetTopic c topic).groups = false → hasKey g res.1.groups = false) → CWf res.1 →
+            invalidateOk res.1 (some g) rs = true →
+            (∀ t, topicInvalid c t = true → topicInvalid res.1 t = true) ∧ (hasKey g c.groups = false → hasKey g res.1.groups = false) ∧
+            CWf res.1 ∧ invalidateOk res.1 (some g) ((topic, err) :: rs) = true := by
+          intro res i1 i2 i3 hok
+          refine ⟨fun t hi => i1 t (resetTopic_keeps_invalid t topic hi), fun hg => i2 (by simpa [resetTopic] using hg), i3,
+            invalidateOk_cons ?_ ?_ hok⟩
+          · simp only [Bool.or_eq_true]; exact Or.inr (i1 topic (resetTopic_invalid h topic))
+          · simp only [Bool.or_eq_true]; exact Or.inl (by have := topic_group_disjoint ht; simpa using this)
         cases foe with
         | true =>
           simp only [if_true]
-          refine ⟨fun t hi => resetTopic_keeps_invalid t topic hi, fun hg => by simpa [resetTopic] using hg,
-            resetTopic_wf h topic, [(topic, err)], by simp, ?_, fun hn => by simp at hn⟩
-          simp only [invalidateOk, List.all_cons, List.all_nil, Bool.and_true, Bool.and_eq_true, Bool.or_eq_true]
-          exact ⟨Or.inr (resetTopic_invalid h topic), Or.inl (by have := topic_group_disjoint ht; simpa using this)⟩
+          obtain ⟨i1, i2, i3, hok, _⟩ := examineRest_spec g (.errno err) rs (resetTopic c topic) hw
+          exact key _ i1 i2 i3 hok
         | false =>
           simp only [Bool.false_eq_true, if_false]
-          have hw := resetTopic_wf h topic
-          obtain ⟨i1, i2, i3, ex, hpre, hok, hall⟩ := ih (resetTopic c topic) hw
-          refine ⟨fun t hi => i1 t (resetTopic_keeps_invalid t topic hi), fun hg => i2 (by simpa [resetTopic] using hg), i3,
-            (topic, err) :: ex, List.cons_prefix_cons.mpr ⟨rfl, hpre⟩, ?_, fun hn => by rw [hall hn]⟩
-          simp only [invalidateOk, List.all_cons, Bool.and_eq_true, Bool.or_eq_true] at hok ⊢
-          exact ⟨⟨Or.inr (i1 topic (resetTopic_invalid h topic)), Or.inl (by have := topic_group_disjoint ht; simpa using this)⟩, hok⟩
+          obtain ⟨i1, i2, i3, hok⟩ := ih (resetTopic c topic) hw
+          exact key _ i1 i2 i3 hok
       · split
-        · -- group reset
-          rename_i h0 ht hgr
+        · rename_i h0 ht hgr
           have hnt : (!clientTopicResetErrnos.contains err) = true := by simpa using ht
+          have hw := resetGroup_wf h g
+          have key : ∀ (res : Cache × Option Raised),
+              (∀ t, topicInvalid (resetGroup c g) t = true → topicInvalid res.1 t = true) →
+              (hasKey g (resetGroup c g).groups = false → hasKey g res.1.groups = false) → CWf res.1 →
+              invalidateOk res.1 (some g) rs = true →
+              (∀ t, topicInvalid c t = true → topicInvalid res.1 t = true) ∧ (hasKey g c.groups = false → hasKey g res.1.groups = false) ∧
+              CWf res.1 ∧ invalidateOk res.1 (some g) ((topic, err) :: rs) = true := by
+            intro res i1 i2 i3 hok
+            refine ⟨fun t hi => i1 t (resetGroup_keeps_invalid t g hi), fun _ => i2 (resetGroup_gone c g), i3,
+              invalidateOk_cons ?_ ?_ hok⟩
+            · simp only [Bool.or_eq_true]; exact Or.inl hnt
+            · simp only [Bool.or_eq_true]; exact Or.inr (by simp [i2 (resetGroup_gone c g)])
           cases foe with
           | true =>
             simp only [if_true]
-            refine ⟨fun t hi => resetGroup_keeps_invalid t g hi, fun _ => resetGroup_gone c g,
-              resetGroup_wf h g, [(topic, err)], by simp, ?_, fun hn => by simp at hn⟩
-            simp only [invalidateOk, List.all_cons, List.all_nil, Bool.and_true, Bool.and_eq_true, Bool.or_eq_true]
-            exact ⟨Or.inl hnt, Or.inr (by simp [resetGroup_gone])⟩
+            obtain ⟨i1, i2, i3, hok, _⟩ := examineRest_spec g (.errno err) rs (resetGroup c g) hw
+            exact key _ i1 i2 i3 hok
           | false =>
             simp only [Bool.false_eq_true, if_false]
-            obtain ⟨i1, i2, i3, ex, hpre, hok, hall⟩ := ih (resetGroup c g) (resetGroup_wf h g)
-            refine ⟨fun t hi => i1 t (resetGroup_keeps_invalid t g hi), fun _ => i2 (resetGroup_gone c g), i3,
-              (topic, err) :: ex, List.cons_prefix_cons.mpr ⟨rfl, hpre⟩, ?_, fun hn => by rw [hall hn]⟩
-            simp only [invalidateOk, List.all_cons, Bool.and_eq_true, Bool.or_eq_true] at hok ⊢
-            exact ⟨⟨Or.inl hnt, Or.inr (by simp [i2 (resetGroup_gone c g)])⟩, hok⟩
-        · -- any other error code
-          rename_i h0 ht hgr
+            obtain ⟨i1, i2, i3, hok⟩ := ih (resetGroup c g) hw
+            exact key _ i1 i2 i3 hok
+        · rename_i h0 ht hgr
           have hnt : (!clientTopicResetErrnos.contains err) = true := by simpa using ht
           have hng : (!clientGroupResetErrnos.contains err) = true := by simpa using hgr
-          split
-          · refine ⟨fun _ hi => hi, fun hg => hg, h, [(topic, err)], by simp, ?_, fun hn => by simp at hn⟩
-            simp only [invalidateOk, List.all_cons, List.all_nil, Bool.and_true, Bool.and_eq_true, Bool.or_eq_true]
-            exact ⟨Or.inl hnt, Or.inl hng⟩
-          · obtain ⟨i1, i2, i3, ex, hpre, hok, hall⟩ := ih c h
-            refine ⟨i1, i2, i3, (topic, err) :: ex, List.cons_prefix_cons.mpr ⟨rfl, hpre⟩, ?_, fun hn => by rw [hall hn]⟩
-            simp only [invalidateOk, List.all_cons, Bool.and_eq_true, Bool.or_eq_true] at hok ⊢
-            exact ⟨⟨Or.inl hnt, Or.inl hng⟩, hok⟩
+          have key : ∀ (res : Cache × Option Raised),
+              (∀ t, topicInvalid c t = true → topicInvalid res.1 t = true) →
+              (hasKey g c.groups = false → hasKey g res.1.groups = false) → CWf res.1 →
+              invalidateOk res.1 (some g) rs = true →
+              (∀ t, topicInvalid c t = true → topicInvalid res.1 t = true) ∧ (hasKey g c.groups = false → hasKey g res.1.groups = false) ∧
+              CWf res.1 ∧ invalidateOk res.1 (some g) ((topic, err) :: rs) = true := by
+            intro res i1 i2 i3 hok
+            refine ⟨i1, i2, i3, invalidateOk_cons ?_ ?_ hok⟩
+            · simp only [Bool.or_eq_true]; exact Or.inl hnt
+            · simp only [Bool.or_eq_true]; exact Or.inl hng
+          cases foe with
+          | true =>
+            simp only [if_true]
+            obtain ⟨i1, i2, i3, hok, _⟩ := examineRest_spec g (.errno err) rs c h
+            exact key _ i1 i2 i3 hok
+          | false =>
+            simp only [Bool.false_eq_true, if_false]
+            obtain ⟨i1, i2, i3, hok⟩ := ih c h
+            exact key _ i1 i2 i3 hok
 
 end Afkak.ClientCache
